@@ -75,6 +75,8 @@ type LStream struct {
 	Total         int64
 	Headers       []hpack.HeaderField // first complete header block received on the stream
 	HeaderBlocks  int
+	iwEpochSeen   int // number of acknowledged window decreases when the last DATA frame arrived
+	mfsEpochSeen  int
 
 	// peer -> implementation
 	PeerReset  bool
@@ -165,6 +167,10 @@ type Ledger struct {
 	connSent     int64 // Σ flow-controlled bytes the peer sent
 	lastStream   uint32
 	pingAcks     map[[8]byte]bool
+
+	// values in force before each acknowledged decrease (index = epoch-1)
+	iwBefore  []int64
+	mfsBefore []int64
 }
 
 func NewLedger(p *Peer, role Role) *Ledger {
@@ -321,7 +327,7 @@ func CheckBody(key uint64, off int64, b []byte) int {
 func (l *Ledger) stream(sid uint32) *LStream {
 	s := l.all[sid]
 	if s == nil {
-		s = &LStream{ID: sid}
+		s = &LStream{ID: sid, iwEpochSeen: len(l.iwBefore), mfsEpochSeen: len(l.mfsBefore)}
 		l.all[sid] = s
 		l.live[sid] = s
 		if sid > l.lastStream {
@@ -394,6 +400,7 @@ func (l *Ledger) ackOne(idx int) {
 		l.iw = l.iw[1:]
 		after := maxOf(l.iw)
 		if after < before {
+			l.iwBefore = append(l.iwBefore, before)
 			for _, s := range l.live {
 				if after+s.Grants-s.Recv < 0 {
 					l.stats.NegativeEpisodes++
@@ -402,7 +409,11 @@ func (l *Ledger) ackOne(idx int) {
 		}
 	}
 	if p.hasMFS {
+		before := maxOf(l.mfs)
 		l.mfs = l.mfs[1:]
+		if maxOf(l.mfs) < before {
+			l.mfsBefore = append(l.mfsBefore, before)
+		}
 	}
 }
 
@@ -427,7 +438,16 @@ func (l *Ledger) applyEvent(idx int, e *Event) {
 	effMFS := maxOf(l.mfs)
 	l.stats.LedgerChecks++
 	if int64(e.Length) > effMFS {
-		l.violate("max-frame-size", e.StreamID, idx, "%v frame of %d bytes on stream %d exceeds the peer's SETTINGS_MAX_FRAME_SIZE %d", e.Type, e.Length, e.StreamID, effMFS)
+		kind := "max-frame-size"
+		if e.Type == http2.FrameData {
+			// The first DATA frame of a stream after a decrease was acknowledged,
+			// still within the old limit: the frame was sized before the SETTINGS
+			// were applied and written after the ACK (classified separately).
+			if s := l.all[e.StreamID]; s != nil && s.mfsEpochSeen < len(l.mfsBefore) && int64(e.Length) <= maxOf(l.mfsBefore[s.mfsEpochSeen:]) {
+				kind = "max-frame-size-decrease-race"
+			}
+		}
+		l.violate(kind, e.StreamID, idx, "%v frame of %d bytes on stream %d exceeds the peer's SETTINGS_MAX_FRAME_SIZE %d", e.Type, e.Length, e.StreamID, effMFS)
 	}
 	if int64(e.Length) > l.stats.MaxFrameSeen {
 		l.stats.MaxFrameSeen = int64(e.Length)
@@ -451,7 +471,11 @@ func (l *Ledger) applyEvent(idx int, e *Event) {
 		if n > 0 {
 			l.stats.LedgerChecks += 2
 			if n > allow {
-				l.violate("stream-window", e.StreamID, idx, "DATA of %d flow-controlled bytes on stream %d but the stream allowance is %d (initial window %d + granted %d - received %d)", n, e.StreamID, allow, effIW, s.Grants, s.Recv)
+				kind := "stream-window"
+				if s.iwEpochSeen < len(l.iwBefore) && n <= maxOf(l.iwBefore[s.iwEpochSeen:])+s.Grants-s.Recv {
+					kind = "stream-window-decrease-race"
+				}
+				l.violate(kind, e.StreamID, idx, "DATA of %d flow-controlled bytes on stream %d but the stream allowance is %d (initial window %d + granted %d - received %d)", n, e.StreamID, allow, effIW, s.Grants, s.Recv)
 			}
 			if n > l.conn {
 				l.violate("conn-window", e.StreamID, idx, "DATA of %d flow-controlled bytes on stream %d but the connection allowance is %d", n, e.StreamID, l.conn)
@@ -460,6 +484,7 @@ func (l *Ledger) applyEvent(idx int, e *Event) {
 		s.Recv += n
 		l.conn -= n
 		s.Frames++
+		s.iwEpochSeen, s.mfsEpochSeen = len(l.iwBefore), len(l.mfsBefore)
 		if s.Ended {
 			l.violate("data-after-end-stream", e.StreamID, idx, "DATA (len %d, END_STREAM=%v) on stream %d after END_STREAM", len(e.Data), e.EndStream(), e.StreamID)
 		}
